@@ -48,10 +48,11 @@ class SV:
 
 
 class SInt(SV):
-    __slots__ = ("term",)
+    __slots__ = ("term", "nonneg")
 
-    def __init__(self, term):
+    def __init__(self, term, nonneg=False):
         self.term = term
+        self.nonneg = nonneg  # known >= 0 (bound variable of a quantifier over a range starting at >= 0)
 
     def __repr__(self):
         return f"SInt({self.term})"
@@ -143,6 +144,20 @@ class SOpaque(SV):
 
     def __repr__(self):
         return f"SOpaque({self.kind}:{self.term})"
+
+
+class SArr(SV):
+    """total map (z3 Array) from an index sort to a value sort; used for ghost heaps (e.g. future states)"""
+
+    __slots__ = ("term", "isort", "vsort")
+
+    def __init__(self, term, isort, vsort):
+        self.term = term
+        self.isort = isort
+        self.vsort = vsort
+
+    def __repr__(self):
+        return f"SArr({self.term})"
 
 
 _obj_ids = itertools.count(1)
@@ -431,6 +446,23 @@ class ViewList(list):
             self.wb()
 
 
+class ArrayOf(Sort):
+    def __init__(self, isort, vsort):
+        self.isort, self.vsort = isort, vsort
+        self.name = f"Arr_{isort.name}_{vsort.name}"
+
+    def z3sort(self):
+        return z3.ArraySort(self.isort.z3sort(), self.vsort.z3sort())
+
+    def box(self, v):
+        if isinstance(v, SArr):
+            return v.term
+        raise Unsupported(f"box {self.name} from {v!r}")
+
+    def unbox(self, t):
+        return SArr(t, self.isort, self.vsort)
+
+
 def sort_of(v):
     """Sort descriptor matching the dynamic type of a value (for havoc)."""
     if isinstance(v, SInt) or (isinstance(v, int) and not isinstance(v, bool)):
@@ -453,6 +485,8 @@ def sort_of(v):
         return EnumOf(v.cls)
     if isinstance(v, SOpaque):
         return Opaque(v.kind)
+    if isinstance(v, SArr):
+        return ArrayOf(v.isort, v.vsort)
     if isinstance(v, tuple) and v:
         return TupleOf(*[sort_of(x) for x in v])
     raise Unsupported(f"no sort for {type(v).__name__} value {v!r}")
